@@ -49,6 +49,29 @@ Theorem C16_last_on_caller_before_return : forall zeroThreads want p d kids k,
 Proof. exact C16_last_direct_proof. Qed.
 Print Assumptions C16_last_on_caller_before_return.
 
+(* the gate of schedule(f, skipRecheck=true), both TaskCost kinds: when the load test says "inline" the functor runs
+   inline (depth + 1) while the calling thread is less than kMaxInlineDepth deep, and otherwise it is handed to the pool
+   (run at once by a zero-thread pool, queued otherwise) -- in every case it is part of the runs: never dropped *)
+Theorem C16_overloaded_gate : forall zeroThreads want p d k k' r,
+  want (0%nat :: p) = true ->
+  exists rest,
+    exec_below zeroThreads want p d (Node (k :: k' :: r)) =
+    (if d <? kMaxInlineDepth then RUN (0%nat :: p) HInline (d + 1) true :: exec_below zeroThreads want (0%nat :: p) (d + 1) k
+     else if zeroThreads then RUN (0%nat :: p) HPoolNow d true :: exec_below zeroThreads want (0%nat :: p) d k
+     else RUN (0%nat :: p) HQueued 0 false :: exec_below zeroThreads want (0%nat :: p) 0 k) ++ rest.
+Proof. exact C16_gate_proof. Qed.
+Print Assumptions C16_overloaded_gate.
+
+(* permanently overloaded set, left-leaning recursion 40 levels deep: inline at depths 1..32, the 33rd level queued *)
+Theorem C16_cap_switch :
+  let runs := exec false (fun _ => true) (comb_l 40) in
+  let spine := filter (fun r => forallb (Nat.eqb 0) (r_path r)) runs in
+  map (fun r => (how_code (r_how r), r_depth r)) (firstn 35 spine) =
+  (-1, 0) :: map (fun i => (0, Z.of_nat i)) (seq 1 32) ++ [(2, 0); (0, 1)]
+  /\ length runs = size (comb_l 40).
+Proof. exact C16_cap_switch_proof. Qed.
+Print Assumptions C16_cap_switch.
+
 Example C16_nonvacuous :
   let w := fun p : path => match p with [0%nat] => true | [0%nat; 1%nat] => true | _ => false end in
   map (fun r => (map Z.of_nat (r_path r), how_code (r_how r), r_depth r)) (exec false w (regular [3%nat; 2%nat])) =
